@@ -40,6 +40,7 @@ func witness(rnd *hx.Rand, id int, variant int) (*B, string) {
 		_ = c.String(418, "hello-from-A")
 	})
 	rb = f.MustHandle("GET", "/b/{id}", func(c fox.Context) {})
+	b.notePattern("/b/{id}")
 	b.routeID[fox.VerifRouteID(ra)] = 1
 	b.routeID[fox.VerifRouteID(rb)] = 2
 	behaviour := "fixed"
@@ -208,6 +209,12 @@ func concurrent(rnd *hx.Rand, workers, perWorker int, st *hx.Stats) []concObs {
 	}
 	// an infix catch-all route: requests under its prefix that do not match walk the sub-context scan
 	infix := f.MustHandle("GET", "/files/*{p}/meta", func(c fox.Context) {})
+	for _, b := range bs {
+		for _, cr := range routes {
+			b.notePattern(cr.pattern)
+		}
+		b.notePattern("/files/*{p}/meta", "/extra0/{a}/{b}/{c}/{d}")
+	}
 	routeIDs[fox.VerifRouteID(infix)] = 900
 	var wg sync.WaitGroup
 	// writer: replaces the tree while requests are in flight
@@ -411,7 +418,7 @@ func main() {
 			continue // enough failing inputs
 		}
 		for _, o := range obs {
-			outT := fmt.Sprintf("OutObs (Ok %s) %s", o.v.coq(), Raw{Req: -1, Route: -1, PNil: true, TNil: true, CQNil: true}.coq())
+			outT := obsOuts(o.v)
 			if o.bad {
 				outT = "OutPanic"
 			}
@@ -442,7 +449,7 @@ func main() {
 			continue
 		}
 		for _, o := range obs {
-			outT := fmt.Sprintf("OutObs (Ok %s) %s", o.v.coq(), Raw{Req: -1, Route: -1, PNil: true, TNil: true, CQNil: true}.coq())
+			outT := obsOuts(o.v)
 			if o.bad {
 				outT = "OutPanic"
 			}
@@ -474,11 +481,11 @@ func main() {
 	emitted := 0
 	for i, o := range obs {
 		// all observations are evaluated by Coq up to a budget; beyond it a sample (every k-th)
-		if !o.bad && emitted >= concEmit && i%(len(obs)/concEmit+1) != 0 {
+		if !o.bad && !o.v.paramOdd() && emitted >= concEmit && i%(len(obs)/concEmit+1) != 0 {
 			continue
 		}
 		emitted++
-		outT := fmt.Sprintf("OutObs (Ok %s) %s", o.v.coq(), Raw{Req: -1, Route: -1, PNil: true, TNil: true, CQNil: true}.coq())
+		outT := obsOuts(o.v)
 		if o.bad {
 			outT = "OutPanic"
 		}
